@@ -1,7 +1,7 @@
 (* Proofs about the Model-level API and its lowering (Model/Api.v, Model/Lower.v): constant
    folding, linear normalisation, and the denotation of the lowered propagator set. *)
 Require Import Selen.Model.Prelude Selen.Model.Dom Selen.Model.Views Selen.Model.PropDefs.
-Require Import Selen.Model.Props.Basic Selen.Model.Props.LinInt Selen.Model.Api Selen.Model.Lower.
+Require Import Selen.Model.Props.Basic Selen.Model.Props.LinInt Selen.Model.Props.Logic Selen.Model.Api Selen.Model.Lower.
 Require Import Selen.Proofs.SparseSetProofs Selen.Proofs.DomProofs.
 Require Export Selen.Proofs.EBoundsSound.   (* escoped, ebounds_sound, aux_dom_sound *)
 
@@ -164,6 +164,10 @@ Definition pscoped (n : nat) (p : pdesc) : Prop :=
   | PAdd x y s | PMul x y s | PMod x y s => vscoped n x /\ vscoped n y /\ (s < n)%nat
   | PLeq x y | PEq x y | PNeq x y => vscoped n x /\ vscoped n y
   | PLinEq _ xs _ | PLinLe _ xs _ | PLinNe _ xs _ => Forall (fun v => (v < n)%nat) xs
+  | PCmpR _ x y b => (x < n)%nat /\ (y < n)%nat /\ (b < n)%nat
+  | PLinEqR _ xs _ b | PLinLeR _ xs _ b | PLinNeR _ xs _ b => Forall (fun v => (v < n)%nat) xs /\ (b < n)%nat
+  | PAndR xs r | POrR xs r => Forall (fun v => (v < n)%nat) xs /\ (r < n)%nat
+  | PNotR o r => (o < n)%nat /\ (r < n)%nat
   end.
 Fixpoint cscoped (n : nat) (c : cons) : Prop :=
   match c with
@@ -208,10 +212,19 @@ Proof.
   inversion H; subst. rewrite IHcs by assumption. rewrite (Ha n0) by assumption. reflexivity.
 Qed.
 
+Lemma forallb_tr_agree : forall n a a' xs, Forall (fun v => (v < n)%nat) xs -> agree n a a' ->
+  forallb (fun x => tr (a' x)) xs = forallb (fun x => tr (a x)) xs.
+Proof. intros n a a' xs H Ha; induction H; simpl; [reflexivity|]. rewrite (Ha x H), IHForall; reflexivity. Qed.
+Lemma existsb_tr_agree : forall n a a' xs, Forall (fun v => (v < n)%nat) xs -> agree n a a' ->
+  existsb (fun x => tr (a' x)) xs = existsb (fun x => tr (a x)) xs.
+Proof. intros n a a' xs H Ha; induction H; simpl; [reflexivity|]. rewrite (Ha x H), IHForall; reflexivity. Qed.
+
 Lemma psat_agree : forall n a a' p, pscoped n p -> agree n a a' -> psat p a' = psat p a.
 Proof.
   intros n a a' p Hs Ha; destruct p; simpl in *;
   repeat match goal with H : _ /\ _ |- _ => destruct H end;
+  try (match goal with H : Forall _ ?xs |- context [forallb _ ?xs] => rewrite (forallb_tr_agree n a a' xs H Ha); clear H end);
+  try (match goal with H : Forall _ ?xs |- context [existsb _ ?xs] => rewrite (existsb_tr_agree n a a' xs H Ha); clear H end);
   repeat match goal with
   | H : vscoped n ?w |- _ => rewrite (vsem_agree n a a' w H Ha); clear H
   | H : (?s < n)%nat |- _ => rewrite (Ha s H); clear H
@@ -245,7 +258,31 @@ Proof.
   destruct (Nat.eqb_spec v v0); [|discriminate]. inversion H; subst; auto.
 Qed.
 
+Lemma evalc_agree : forall n a a' c, cscoped n c -> agree n a a' -> eval_cons c a' = eval_cons c a.
+Proof.
+  intros n a a'; induction c; simpl; intros Hs Ha.
+  - destruct Hs as [H1 H2].
+    rewrite (eval_agree n a a' l H1 Ha), (eval_agree n a a' r H2 Ha). reflexivity.
+  - destruct Hs; rewrite IHc1, IHc2 by assumption; reflexivity.
+  - destruct Hs; rewrite IHc1, IHc2 by assumption; reflexivity.
+  - rewrite IHc by assumption; reflexivity.
+  - rewrite (lin_val_agree n a a' cs xs Hs Ha); reflexivity.
+Qed.
+Lemma holds_agree : forall n a a' c, cscoped n c -> agree n a a' -> holds c a' = holds c a.
+Proof. intros n a a' c Hs Ha; unfold holds. rewrite (evalc_agree n a a' c Hs Ha). reflexivity. Qed.
+
 Lemma impl_agree : forall n a a' c, cscoped n c -> agree n a a' -> impl_cons c a' = impl_cons c a.
+Proof.
+  intros n a a'; induction c; intros Hs Ha.
+  - simpl in *. destruct Hs as [H1 H2].
+    rewrite (eval_agree n a a' l H1 Ha), (eval_agree n a a' r H2 Ha).
+    reflexivity.
+  - simpl in *. destruct Hs; rewrite IHc1, IHc2 by assumption; reflexivity.
+  - cbn [impl_cons]. apply (holds_agree n a a' _ Hs Ha).
+  - cbn [impl_cons]. apply (holds_agree n a a' _ Hs Ha).
+  - simpl in *. rewrite (lin_val_agree n a a' cs xs Hs Ha); reflexivity.
+Qed.
+Lemma impl_prefix_agree : forall n a a' c, cscoped n c -> agree n a a' -> impl_cons_prefix c a' = impl_cons_prefix c a.
 Proof.
   intros n a a'; induction c; simpl; intros Hs Ha.
   - destruct Hs as [H1 H2].
@@ -641,6 +678,331 @@ Qed.
 Lemma lin_desc_scoped : forall n cs xs op k, Forall (fun v => (v < n)%nat) xs -> pscoped n (lin_desc cs xs op k).
 Proof. intros n cs xs op k H; destruct op; simpl; exact H. Qed.
 
+(* ============================================================================================ *)
+(* reification (the repair of D3: reify_constraint_kind)                                          *)
+(* ============================================================================================ *)
+Definition zb (t : bool) : Z := if t then 1 else 0.
+Lemma tr_zb : forall t, tr (zb t) = t. Proof. destruct t; reflexivity. Qed.
+Lemma zb_01 : forall t, zb t = 0 \/ zb t = 1. Proof. destruct t; simpl; auto. Qed.
+Lemma zb_nonneg : forall t, 0 <= zb t. Proof. destruct t; simpl; lia. Qed.
+Lemma zb_inj : forall t u, zb t = zb u -> t = u. Proof. destruct t, u; simpl; intro H; try reflexivity; discriminate. Qed.
+Lemma eqb_tr_zb : forall z t, (z = 0 \/ z = 1) -> (Bool.eqb (tr z) t = true <-> z = zb t).
+Proof. intros z t [->| ->]; destruct t; unfold tr; simpl; split; intro H; try reflexivity; discriminate. Qed.
+Lemma eqb_is1_zb : forall z t, (z = 0 \/ z = 1) -> (is01 z && Bool.eqb (z =? 1) t = true <-> z = zb t).
+Proof. intros z t [->| ->]; destruct t; unfold is01; simpl; split; intro H; try reflexivity; discriminate. Qed.
+
+(* a lowering fragment from st to st' that ends with a variable v carrying a value related to the
+   assignment by R (get_expr_var: the value of the expression; reify: the truth value of the tree) *)
+Definition vspec (R : asg -> Z -> Prop) (st : lst) (v : nat) (st' : lst) : Prop :=
+  (v < nvars st')%nat /\ (nvars st <= nvars st')%nat /\ (ne (fst st') -> ne (fst st)) /\
+  exists np, snd st' = snd st ++ np /\ Forall (pscoped (nvars st')) np /\
+    (forall a', inst a' (fst st') -> allsat np a' -> inst a' (fst st) /\ R a' (a' v)) /\
+    (forall a x, inst a (fst st) -> R a x -> ne (fst st') ->
+        exists a', agree (nvars st) a a' /\ inst a' (fst st') /\ allsat np a' /\ a' v = x).
+
+Lemma gev_vspec : forall e st, escoped (nvars st) e ->
+  vspec (fun a x => eval_expr e a = Some x) st (fst (get_expr_var e st)) (snd (get_expr_var e st)).
+Proof. intros e st H. exact (get_expr_var_ok e st H). Qed.
+
+(* the same without a distinguished variable: Q describes the extended assignments, P is what the
+   original assignment must satisfy for an extension to exist *)
+Definition pre (st st' : lst) (Q P : asg -> Prop) : Prop :=
+  (nvars st <= nvars st')%nat /\ (ne (fst st') -> ne (fst st)) /\
+  exists np, snd st' = snd st ++ np /\ Forall (pscoped (nvars st')) np /\
+    (forall a', inst a' (fst st') -> allsat np a' -> inst a' (fst st) /\ Q a') /\
+    (forall a, inst a (fst st) -> P a -> ne (fst st') ->
+        exists a', agree (nvars st) a a' /\ inst a' (fst st') /\ allsat np a' /\ Q a').
+
+Lemma pre_refl : forall st, pre st st (fun _ => True) (fun _ => True).
+Proof.
+  intro st. split; [lia|]. split; [auto|]. exists []. rewrite app_nil_r. split; [reflexivity|]. split; [constructor|]. split.
+  - intros a' Hi _; auto.
+  - intros a Hi _ _. exists a. repeat split; auto using agree_refl, allsat_nil.
+Qed.
+
+Lemma pre_of_vspec : forall R st v st', vspec R st v st' ->
+  (forall a a' x, agree (nvars st) a a' -> R a x -> R a' x) ->
+  pre st st' (fun a => R a (a v)) (fun a => exists x, R a x).
+Proof.
+  intros R st v st' [Hv [Hn [Hne [np [E [Sc [So Co]]]]]]] Hinv.
+  split; [exact Hn|]. split; [exact Hne|]. exists np. split; [exact E|]. split; [exact Sc|]. split; [exact So|].
+  intros a Hi [x Hx] N. destruct (Co a x Hi Hx N) as [a' [A [I [Sat V]]]].
+  exists a'. split; [exact A|]. split; [exact I|]. split; [exact Sat|]. rewrite V. eapply Hinv; eauto.
+Qed.
+
+Lemma pre_seq : forall st st1 st2 (Q1 P1 Q2 P2 : asg -> Prop),
+  pre st st1 Q1 P1 -> pre st1 st2 Q2 P2 ->
+  (forall a a', agree (nvars st1) a a' -> Q1 a -> Q1 a') ->
+  (forall a a', agree (nvars st) a a' -> P2 a -> P2 a') ->
+  pre st st2 (fun a => Q1 a /\ Q2 a) (fun a => P1 a /\ P2 a).
+Proof.
+  intros st st1 st2 Q1 P1 Q2 P2 [Hn1 [Hne1 [np1 [E1 [S1 [So1 Co1]]]]]] [Hn2 [Hne2 [np2 [E2 [S2 [So2 Co2]]]]]] HQ HP.
+  split; [lia|]. split; [auto|]. exists (np1 ++ np2). split; [rewrite E2, E1, app_assoc; reflexivity|]. split.
+  { apply Forall_app; split; [eapply Forall_pscoped_le; eauto|exact S2]. }
+  split.
+  - intros a' Hi Hs. apply allsat_app in Hs; destruct Hs as [Hs1 Hs2].
+    destruct (So2 a' Hi Hs2) as [Hi1 HQ2]. destruct (So1 a' Hi1 Hs1) as [Hi0 HQ1]. auto.
+  - intros a Hi [HP1 HP2] N2.
+    destruct (Co1 a Hi HP1 (Hne2 N2)) as [a1 [A1 [I1 [Sat1 HQ1]]]].
+    destruct (Co2 a1 I1 (HP a a1 A1 HP2) N2) as [a2 [A2 [I2 [Sat2 HQ2]]]].
+    exists a2. split; [eapply agree_trans; eauto|]. split; [exact I2|]. split.
+    + apply allsat_app; split; [eapply allsat_agree; eauto|exact Sat2].
+    + split; [eapply HQ; eauto|exact HQ2].
+Qed.
+
+(* Model::bool, then one propagator D that ties the new boolean to the earlier variables *)
+Definition close (D : nat -> pdesc) (st : lst) : nat * lst :=
+  (nvars st, push (D (nvars st)) (fst st ++ [drange 0 1], snd st)).
+
+Lemma close_ok : forall st st2 (Q P : asg -> Prop) (D : nat -> pdesc) (F : asg -> Z) (R : asg -> Z -> Prop),
+  pre st st2 Q P ->
+  pscoped (S (nvars st2)) (D (nvars st2)) ->
+  (forall a a', agree (nvars st2) a a' -> Q a -> Q a') ->
+  (forall a a', agree (nvars st2) a a' -> F a' = F a) ->
+  (forall a, Q a -> F a = 0 \/ F a = 1) ->
+  (forall a, Q a -> (a (nvars st2) = 0 \/ a (nvars st2) = 1) -> (psat (D (nvars st2)) a = true <-> a (nvars st2) = F a)) ->
+  (forall a, Q a -> R a (F a)) ->
+  (forall a x, R a x -> P a) ->
+  (forall a a' x, agree (nvars st) a a' -> Q a' -> R a x -> x = F a') ->
+  vspec R st (fst (close D st2)) (snd (close D st2)).
+Proof.
+  intros st st2 Q P D F R [Hn [Hne [np [E [Sc [So Co]]]]]] HD HQ HF H01 Hsat HR HP Hdet.
+  unfold close; cbn [fst snd]. set (b := nvars st2) in *.
+  assert (L : nvars (push (D b) (fst st2 ++ [drange 0 1], snd st2)) = S b).
+  { unfold push, nvars; cbn [fst snd]. rewrite app_length; simpl. fold (nvars st2). lia. }
+  unfold vspec. rewrite L. split; [lia|]. split; [lia|]. split.
+  { unfold push; cbn [fst]. intro N. apply ne_app in N. tauto. }
+  exists (np ++ [D b]). split; [unfold push; cbn [snd]; rewrite E, app_assoc; reflexivity|]. split.
+  { apply Forall_app; split; [eapply Forall_pscoped_le; [|exact Sc]; lia|constructor; [exact HD|constructor]]. }
+  split.
+  - intros a' Hi Hs. unfold push in Hi; cbn [fst] in Hi. apply inst_app in Hi. destruct Hi as [Hi Hin].
+    fold (nvars st2) in Hin. fold b in Hin. apply drange_In in Hin.
+    apply allsat_app in Hs. destruct Hs as [Hs1 Hs2]. apply allsat_one in Hs2.
+    destruct (So a' Hi Hs1) as [Hi0 HQa]. split; [exact Hi0|].
+    assert (B01 : a' b = 0 \/ a' b = 1) by lia.
+    apply (Hsat a' HQa B01) in Hs2. rewrite Hs2. apply HR; exact HQa.
+  - intros a x Hi HRx N. unfold push in N; cbn [fst] in N. apply ne_app in N. destruct N as [N _].
+    destruct (Co a Hi (HP a x HRx) N) as [a1 [A1 [I1 [Sat1 HQ1]]]].
+    pose proof (Hdet a a1 x A1 HQ1 HRx) as Ex.
+    assert (Ab : agree b a1 (upd a1 b x)) by (apply agree_upd; lia).
+    exists (upd a1 b x). split; [eapply agree_trans; [|exact A1|exact Ab]; exact Hn|]. split; [|split].
+    + unfold push; cbn [fst]. apply inst_app. split; [eapply inst_agree; [exact Ab|exact I1]|].
+      fold (nvars st2); fold b. rewrite upd_same. apply drange_In. destruct (H01 a1 HQ1); lia.
+    + apply allsat_app. split; [eapply allsat_agree; eauto|]. apply allsat_one.
+      apply Hsat; [eapply HQ; eauto|rewrite upd_same; destruct (H01 a1 HQ1); lia|].
+      rewrite upd_same, (HF a1 _ Ab). exact Ex.
+    + apply upd_same.
+Qed.
+
+(* fixing the carried value: `props.equals(v, Val::ValI(k))` after a fragment *)
+Lemma vspec_fix : forall R st v st' k, vspec R st v st' ->
+  step st (push (PEq (VVar v) (VConst k)) st') (fun a => R a k).
+Proof.
+  intros R st v st' k [Hv [Hn [Hne [np [E [Sc [So Co]]]]]]].
+  split; [unfold push, nvars in *; simpl; lia|unfold push; cbn [fst]; exact Hne|].
+  exists (np ++ [PEq (VVar v) (VConst k)]). split; [unfold push; cbn [snd]; rewrite E, app_assoc; reflexivity|]. split.
+  { unfold push, nvars; cbn [fst snd]. fold (nvars st'). apply Forall_app; split; [exact Sc|].
+    constructor; [|constructor]. simpl; unfold vscoped; simpl. split; [exact Hv|exact I]. }
+  split.
+  - intros a' Hi Hs. unfold push in Hi; cbn [fst] in Hi. apply allsat_app in Hs. destruct Hs as [Hs1 Hs2].
+    apply allsat_one in Hs2. cbn [psat vsem] in Hs2. apply Z.eqb_eq in Hs2.
+    destruct (So a' Hi Hs1) as [Hi0 HR]. split; [exact Hi0|]. rewrite <- Hs2. exact HR.
+  - intros a Hi HR N. unfold push in N; cbn [fst] in N.
+    destruct (Co a k Hi HR N) as [a' [A [I' [Sat V]]]].
+    exists a'. split; [exact A|]. split; [exact I'|]. apply allsat_app. split; [exact Sat|].
+    apply allsat_one. cbn [psat vsem]. rewrite V. apply Z.eqb_refl.
+Qed.
+
+(* the reified LinearInt *)
+Lemma lin_cmp_reif_sat : forall cs xs op k b a,
+  psat (lin_cmp_reif cs xs op k b) a = is01 (a b) && Bool.eqb (a b =? 1) (cmp_sem op (lin_val cs xs a) k).
+Proof.
+  intros cs xs op k b a; rewrite lin_val_combine; destruct op; cbn [lin_cmp_reif psat cmp_sem]; try reflexivity;
+  try rewrite lin_sem_opp; f_equal; f_equal;
+  repeat match goal with
+  | |- context [?x <? ?y] => destruct (Z.ltb_spec x y)
+  | |- context [?x <=? ?y] => destruct (Z.leb_spec x y)
+  end; try reflexivity; lia.
+Qed.
+Lemma lin_cmp_reif_scoped : forall n cs xs op k b, Forall (fun v => (v < n)%nat) xs -> (b < n)%nat ->
+  pscoped n (lin_cmp_reif cs xs op k b).
+Proof. intros n cs xs op k b H Hb; destruct op; simpl; auto. Qed.
+
+(* the truth value of the tree, as 0 / 1; undefined (a modulo by zero somewhere) relates to nothing *)
+Definition Rc (c : cons) (a : asg) (x : Z) : Prop := exists t, eval_cons c a = Some t /\ x = zb t.
+Lemma Rc_agree : forall n c a a' x, cscoped n c -> agree n a a' -> Rc c a x -> Rc c a' x.
+Proof. intros n c a a' x Hs Ha [t [E V]]. exists t. rewrite (evalc_agree n a a' c Hs Ha). auto. Qed.
+Lemma Rc_fun : forall c a x y, Rc c a x -> Rc c a y -> x = y.
+Proof. intros c a x y [t [E ->]] [u [E' ->]]. congruence. Qed.
+
+Lemma new_bool_eq : forall st, new_bool st = (nvars st, (fst st ++ [drange 0 1], snd st)).
+Proof. reflexivity. Qed.
+
+Lemma reify_bin_eq : forall l op r st,
+  reify (CBin l op r) st =
+  close (PCmpR op (fst (get_expr_var l st)) (fst (get_expr_var r (snd (get_expr_var l st)))))
+        (snd (get_expr_var r (snd (get_expr_var l st)))).
+Proof.
+  intros; cbn [reify]. destruct (get_expr_var l st) as [lv st1]; cbn [fst snd].
+  destruct (get_expr_var r st1) as [rv st2]; reflexivity.
+Qed.
+Lemma reify_and_eq : forall p q st,
+  reify (CAnd p q) st = close (PAndR [fst (reify p st); fst (reify q (snd (reify p st)))]) (snd (reify q (snd (reify p st)))).
+Proof.
+  intros; cbn [reify]. destruct (reify p st) as [pb st1]; cbn [fst snd].
+  destruct (reify q st1) as [qb st2]; reflexivity.
+Qed.
+Lemma reify_or_eq : forall p q st,
+  reify (COr p q) st = close (POrR [fst (reify p st); fst (reify q (snd (reify p st)))]) (snd (reify q (snd (reify p st)))).
+Proof.
+  intros; cbn [reify]. destruct (reify p st) as [pb st1]; cbn [fst snd].
+  destruct (reify q st1) as [qb st2]; reflexivity.
+Qed.
+Lemma reify_not_eq : forall p st, reify (CNot p) st = close (PNotR (fst (reify p st))) (snd (reify p st)).
+Proof. intros; cbn [reify]. destruct (reify p st) as [pb st1]; reflexivity. Qed.
+Lemma reify_lin_eq : forall cs xs op k st, reify (CLinInt cs xs op k) st = close (lin_cmp_reif cs xs op k) st.
+Proof. reflexivity. Qed.
+
+Lemma some_bool_inj : forall (t u : bool), Some t = Some u -> t = u.
+Proof. intros t u H; inversion H; reflexivity. Qed.
+
+(* And / Or of two reified sub-trees (the shared part of the two arms) *)
+Lemma reify_binop_ok : forall (mkc : cons -> cons -> cons) (op : bool -> bool -> bool) (D : nat -> nat -> nat -> pdesc),
+  (forall p q a, eval_cons (mkc p q) a = do x <- eval_cons p a; do y <- eval_cons q a; Some (op x y)) ->
+  (forall n pb qb b, (pb < n)%nat -> (qb < n)%nat -> (b < n)%nat -> pscoped n (D pb qb b)) ->
+  (forall pb qb b a, (a b = 0 \/ a b = 1) -> (psat (D pb qb b) a = true <-> a b = zb (op (tr (a pb)) (tr (a qb))))) ->
+  forall p q st pb st1 qb st2,
+  cscoped (nvars st) p -> cscoped (nvars st) q ->
+  vspec (Rc p) st pb st1 -> vspec (Rc q) st1 qb st2 ->
+  vspec (Rc (mkc p q)) st (fst (close (D pb qb) st2)) (snd (close (D pb qb) st2)).
+Proof.
+  intros mkc op D Hev Hsc Hsat p q st pb st1 qb st2 Hp Hq V1 V2.
+  assert (Hpb : (pb < nvars st1)%nat) by (destruct V1 as [H _]; exact H).
+  assert (Hqb : (qb < nvars st2)%nat) by (destruct V2 as [H _]; exact H).
+  assert (Hn1 : (nvars st <= nvars st1)%nat) by (destruct V1 as [_ [H _]]; exact H).
+  assert (Hn2 : (nvars st1 <= nvars st2)%nat) by (destruct V2 as [_ [H _]]; exact H).
+  assert (Hq1 : cscoped (nvars st1) q) by exact (cscoped_le _ _ _ Hn1 Hq).
+  pose proof (pre_of_vspec _ _ _ _ V1 (fun a a' x A => Rc_agree _ p a a' x Hp A)) as P1.
+  pose proof (pre_of_vspec _ _ _ _ V2 (fun a a' x A => Rc_agree _ q a a' x Hq1 A)) as P2.
+  assert (P12 := pre_seq _ _ _ _ _ _ _ P1 P2).
+  cbv beta in P12.
+  assert (St1 : forall a a', agree (nvars st1) a a' -> Rc p a (a pb) -> Rc p a' (a' pb)).
+  { intros a a' A H. rewrite (A pb Hpb). apply (Rc_agree (nvars st1) p a a'); [eapply cscoped_le; [|exact Hp]; exact Hn1|exact A|exact H]. }
+  assert (Inv2 : forall a a', agree (nvars st) a a' -> (exists x, Rc q a x) -> exists x, Rc q a' x).
+  { intros a a' A [x H]. exists x. exact (Rc_agree _ q a a' x Hq A H). }
+  specialize (P12 St1 Inv2).
+  apply (close_ok st st2 _ _ (D pb qb) (fun a => zb (op (tr (a pb)) (tr (a qb)))) (Rc (mkc p q)) P12).
+  - apply Hsc; lia.
+  - intros a a' A [H1 H2]. split.
+    + rewrite (A pb) by lia. apply (Rc_agree (nvars st2) p a a'); [eapply cscoped_le; [|exact Hp]; lia|exact A|exact H1].
+    + rewrite (A qb) by lia. apply (Rc_agree (nvars st2) q a a'); [eapply cscoped_le; [|exact Hq]; lia|exact A|exact H2].
+  - intros a a' A. rewrite (A pb), (A qb) by lia. reflexivity.
+  - intros a _. apply zb_01.
+  - intros a _ B. apply Hsat; exact B.
+  - intros a [[t1 [E1 V1']] [t2 [E2 V2']]]. exists (op t1 t2). rewrite Hev, E1, E2. cbn [obind].
+    split; [reflexivity|]. rewrite V1', V2', !tr_zb. reflexivity.
+  - intros a x [t [E _]]. rewrite Hev in E.
+    destruct (eval_cons p a) as [t1|] eqn:E1; [|discriminate]. destruct (eval_cons q a) as [t2|] eqn:E2; [|discriminate].
+    split; [exists (zb t1), t1|exists (zb t2), t2]; auto.
+  - intros a a' x A [[t1 [E1 V1']] [t2 [E2 V2']]] [t [E ->]].
+    rewrite Hev in E. rewrite <- (evalc_agree _ a a' p Hp A), <- (evalc_agree _ a a' q Hq A) in E.
+    rewrite E1, E2 in E. cbn [obind] in E. apply some_bool_inj in E. subst t.
+    rewrite V1', V2', !tr_zb. reflexivity.
+Qed.
+
+Theorem reify_ok : forall c st, cscoped (nvars st) c -> vspec (Rc c) st (fst (reify c st)) (snd (reify c st)).
+Proof.
+  induction c; intros st Hs.
+  - (* Binary *)
+    destruct Hs as [Hl Hr]. rewrite reify_bin_eq.
+    pose proof (gev_vspec l st Hl) as V1.
+    set (lv := fst (get_expr_var l st)) in *. set (st1 := snd (get_expr_var l st)) in *.
+    assert (Hn1 : (nvars st <= nvars st1)%nat) by (destruct V1 as [_ [H _]]; exact H).
+    assert (Hlv : (lv < nvars st1)%nat) by (destruct V1 as [H _]; exact H).
+    assert (Hr1 : escoped (nvars st1) r) by exact (escoped_le _ _ _ Hn1 Hr).
+    pose proof (gev_vspec r st1 Hr1) as V2.
+    set (rv := fst (get_expr_var r st1)) in *. set (st2 := snd (get_expr_var r st1)) in *.
+    assert (Hn2 : (nvars st1 <= nvars st2)%nat) by (destruct V2 as [_ [H _]]; exact H).
+    assert (Hrv : (rv < nvars st2)%nat) by (destruct V2 as [H _]; exact H).
+    pose proof (pre_of_vspec _ _ _ _ V1 (fun a a' x A H => eq_trans (eval_agree _ a a' l Hl A) H)) as P1.
+    pose proof (pre_of_vspec _ _ _ _ V2 (fun a a' x A H => eq_trans (eval_agree _ a a' r Hr1 A) H)) as P2.
+    assert (P12 := pre_seq _ _ _ _ _ _ _ P1 P2). cbv beta in P12.
+    assert (St1 : forall a a', agree (nvars st1) a a' -> eval_expr l a = Some (a lv) -> eval_expr l a' = Some (a' lv)).
+    { intros a a' A H. rewrite (A lv Hlv), (eval_agree _ a a' l (escoped_le _ _ _ Hn1 Hl) A). exact H. }
+    assert (Inv2 : forall a a', agree (nvars st) a a' -> (exists x, eval_expr r a = Some x) -> exists x, eval_expr r a' = Some x).
+    { intros a a' A [x H]. exists x. rewrite (eval_agree _ a a' r Hr A). exact H. }
+    specialize (P12 St1 Inv2).
+    apply (close_ok st st2 _ _ (PCmpR op lv rv) (fun a => zb (cmp_sem op (a lv) (a rv))) (Rc (CBin l op r)) P12).
+    + simpl. lia.
+    + assert (L02 : (nvars st <= nvars st2)%nat) by lia.
+      intros a a' A [H1 H2]. split.
+      * rewrite (A lv) by lia. rewrite (eval_agree (nvars st2) a a' l (escoped_le _ _ _ L02 Hl) A). exact H1.
+      * rewrite (A rv) by lia. rewrite (eval_agree (nvars st2) a a' r (escoped_le _ _ _ L02 Hr) A). exact H2.
+    + intros a a' A. rewrite (A lv), (A rv) by lia. reflexivity.
+    + intros a _. apply zb_01.
+    + intros a _ B. cbn [psat]. apply eqb_tr_zb; exact B.
+    + intros a [H1 H2]. exists (cmp_sem op (a lv) (a rv)). cbn [eval_cons]. rewrite H1, H2. auto.
+    + intros a x [t [E _]]. cbn [eval_cons] in E.
+      destruct (eval_expr l a) as [x1|]; [|discriminate]. destruct (eval_expr r a) as [x2|]; [|discriminate].
+      split; eexists; reflexivity.
+    + intros a a' x A [H1 H2] [t [E ->]]. cbn [eval_cons] in E.
+      rewrite <- (eval_agree _ a a' l Hl A), <- (eval_agree _ a a' r Hr A), H1, H2 in E. cbn [obind] in E.
+      apply some_bool_inj in E. subst t. reflexivity.
+  - (* And *)
+    destruct Hs as [H1 H2]. rewrite reify_and_eq.
+    pose proof (IHc1 st H1) as V1.
+    assert (H2' : cscoped (nvars (snd (reify c1 st))) c2).
+    { eapply cscoped_le; [|exact H2]. destruct V1 as [_ [H _]]; exact H. }
+    pose proof (IHc2 _ H2') as V2.
+    refine (reify_binop_ok CAnd andb (fun pb qb b => PAndR [pb; qb] b) (fun p q a => eq_refl) _ _ c1 c2 st _ _ _ _ H1 H2 V1 V2).
+    + intros n pb qb b Hp Hq Hb; simpl. split; [repeat constructor; assumption|exact Hb].
+    + intros pb qb b a B. cbn [psat forallb]. rewrite andb_true_r. cbn [andb]. apply eqb_tr_zb; exact B.
+  - (* Or *)
+    destruct Hs as [H1 H2]. rewrite reify_or_eq.
+    pose proof (IHc1 st H1) as V1.
+    assert (H2' : cscoped (nvars (snd (reify c1 st))) c2).
+    { eapply cscoped_le; [|exact H2]. destruct V1 as [_ [H _]]; exact H. }
+    pose proof (IHc2 _ H2') as V2.
+    refine (reify_binop_ok COr orb (fun pb qb b => POrR [pb; qb] b) (fun p q a => eq_refl) _ _ c1 c2 st _ _ _ _ H1 H2 V1 V2).
+    + intros n pb qb b Hp Hq Hb; simpl. split; [repeat constructor; assumption|exact Hb].
+    + intros pb qb b a B. cbn [psat existsb]. rewrite orb_false_r. cbn [andb]. apply eqb_tr_zb; exact B.
+  - (* Not *)
+    simpl in Hs. rewrite reify_not_eq.
+    pose proof (IHc st Hs) as V1.
+    set (pb := fst (reify c st)) in *. set (st1 := snd (reify c st)) in *.
+    assert (Hn1 : (nvars st <= nvars st1)%nat) by (destruct V1 as [_ [H _]]; exact H).
+    assert (Hpb : (pb < nvars st1)%nat) by (destruct V1 as [H _]; exact H).
+    pose proof (pre_of_vspec _ _ _ _ V1 (fun a a' x A => Rc_agree _ c a a' x Hs A)) as P1.
+    apply (close_ok st st1 _ _ (PNotR pb) (fun a => zb (negb (tr (a pb)))) (Rc (CNot c)) P1).
+    + simpl. lia.
+    + intros a a' A H. rewrite (A pb Hpb). apply (Rc_agree (nvars st1) c a a'); [eapply cscoped_le; [|exact Hs]; exact Hn1|exact A|exact H].
+    + intros a a' A. rewrite (A pb Hpb). reflexivity.
+    + intros a _. apply zb_01.
+    + intros a [t [E V]] B. cbn [psat].
+      assert (I1 : is01 (a (nvars st1)) = true) by (destruct B as [-> | ->]; reflexivity).
+      assert (I2 : (0 <=? a pb) = true) by (rewrite V; apply Z.leb_le, zb_nonneg).
+      rewrite I1, I2. cbn [andb]. apply eqb_tr_zb; exact B.
+    + intros a [t [E V]]. exists (negb t). cbn [eval_cons]. rewrite E. cbn [obind]. split; [reflexivity|].
+      rewrite V, tr_zb. reflexivity.
+    + intros a x [t [E _]]. cbn [eval_cons] in E. destruct (eval_cons c a) as [t1|] eqn:E1; [|discriminate].
+      exists (zb t1), t1. auto.
+    + intros a a' x A [t1 [E1 V1']] [t [E ->]]. cbn [eval_cons] in E.
+      rewrite <- (evalc_agree _ a a' c Hs A), E1 in E. cbn [obind] in E. apply some_bool_inj in E. subst t.
+      rewrite V1', tr_zb. reflexivity.
+  - (* LinearInt *)
+    simpl in Hs. rewrite reify_lin_eq.
+    apply (close_ok st st _ _ (lin_cmp_reif cs xs op k) (fun a => zb (cmp_sem op (lin_val cs xs a) k)) (Rc (CLinInt cs xs op k)) (pre_refl st)).
+    + apply lin_cmp_reif_scoped; [eapply Forall_lt_le; [|exact Hs]; lia|lia].
+    + auto.
+    + intros a a' A. rewrite (lin_val_agree _ a a' cs xs Hs A). reflexivity.
+    + intros a _. apply zb_01.
+    + intros a _ B. rewrite lin_cmp_reif_sat. apply eqb_is1_zb; exact B.
+    + intros a _. eexists. split; reflexivity.
+    + auto.
+    + intros a a' x A _ [t [E ->]]. cbn [eval_cons] in E. apply some_bool_inj in E. subst t.
+      rewrite (lin_val_agree _ a a' cs xs Hs A). reflexivity.
+Qed.
+
 (* ---- materialize_constraint_kind, Binary arm ---- *)
 Definition mat_gen (l : expr) (op : cmp) (r : expr) (st : lst) : lst :=
   push (p_cmp op (VVar (fst (get_expr_var l st))) (VVar (fst (get_expr_var r (snd (get_expr_var l st))))))
@@ -653,7 +1015,7 @@ Lemma materialize_gen : forall l op r st,
   materialize (CBin l op r) st = mat_gen l op r st.
 Proof.
   intros l op r st H1 H2; unfold mat_gen.
-  destruct l, r; try discriminate; cbn [materialize];
+  destruct l, r; try discriminate; cbn [materialize materialize_bin];
   try (destruct op; destruct (get_expr_var _ st) as [lv st1]; cbn [fst snd];
        destruct (get_expr_var _ st1) as [rv st2]; reflexivity).
 Qed.
@@ -753,7 +1115,7 @@ Lemma materialize_var_val : forall v op k st, (v < nvars st)%nat ->
   let st0 := match op with OEq => set_dom v (only k (sget (fst st) v)) st | _ => st end in
   push (p_cmp op (VVar v) (VVar (nvars st0))) (fst st0 ++ [drange k k], snd st0).
 Proof.
-  intros v op k st Hv; cbn [materialize]. apply Nat.ltb_lt in Hv.
+  intros v op k st Hv; cbn [materialize materialize_bin]. apply Nat.ltb_lt in Hv.
   destruct op; try rewrite Hv; reflexivity.
 Qed.
 Lemma materialize_val_var : forall v op k st, (v < nvars st)%nat ->
@@ -761,8 +1123,33 @@ Lemma materialize_val_var : forall v op k st, (v < nvars st)%nat ->
   let st0 := match op with OEq => set_dom v (only k (sget (fst st) v)) st | _ => st end in
   push (p_cmp op (VVar (nvars st0)) (VVar v)) (fst st0 ++ [drange k k], snd st0).
 Proof.
-  intros v op k st Hv; cbn [materialize]. apply Nat.ltb_lt in Hv.
+  intros v op k st Hv; cbn [materialize materialize_bin]. apply Nat.ltb_lt in Hv.
   destruct op; try rewrite Hv; reflexivity.
+Qed.
+
+Lemma materialize_or_eq : forall a b st, or_eq_pattern a b = None ->
+  materialize (COr a b) st = push (PEq (VVar (fst (reify (COr a b) st))) (VConst 1)) (snd (reify (COr a b) st)).
+Proof.
+  intros a b st H; cbn [materialize reify]. rewrite H.
+  destruct (reify a st) as [lb st1]. destruct (reify b st1) as [rb st2]. reflexivity.
+Qed.
+Lemma materialize_not_eq : forall a st,
+  materialize (CNot a) st = push (PEq (VVar (fst (reify a st))) (VConst 0)) (snd (reify a st)).
+Proof. intros a st; cbn [materialize]. destruct (reify a st) as [b st1]. reflexivity. Qed.
+
+Lemma holds_true_iff : forall c a, holds c a = true <-> eval_cons c a = Some true.
+Proof. intros c a; unfold holds; destruct (eval_cons c a) as [[|]|]; split; congruence. Qed.
+Lemma Rc_one : forall c a, Rc c a 1 <-> holds c a = true.
+Proof.
+  intros c a; rewrite holds_true_iff; unfold Rc; split.
+  - intros [t [E V]]. destruct t; [exact E|discriminate].
+  - intro E. exists true. auto.
+Qed.
+Lemma Rc_zero_not : forall c a, Rc c a 0 <-> holds (CNot c) a = true.
+Proof.
+  intros c a; rewrite holds_true_iff; unfold Rc; cbn [eval_cons]; split.
+  - intros [t [E V]]. destruct t; [discriminate|]. rewrite E. reflexivity.
+  - intro E. destruct (eval_cons c a) as [[|]|]; try discriminate. exists false. auto.
 Qed.
 
 Theorem materialize_ok : forall c st, cscoped (nvars st) c ->
@@ -786,9 +1173,12 @@ Proof.
     + intro a; cbn [impl_cons]. rewrite andb_true_iff. reflexivity.
     + intros a a' Ha. cbv beta. rewrite (impl_agree _ a a' c2 H2 Ha). auto.
     + eapply cscoped_le; [|exact H2]. apply (st_n _ _ _ (IHc1 st H1)).
-  - destruct Hs as [H1 H2]. cbn [materialize]. cbn [impl_cons].
+  - cbn [impl_cons].
     destruct (or_eq_pattern c1 c2) as [[[x l] r]|] eqn:E.
-    + apply or_eq_pattern_some in E. destruct E as [-> ->]. simpl in H1. destruct H1 as [Hx _].
+    + destruct Hs as [H1 H2]. cbn [materialize]. rewrite E.
+      apply or_eq_pattern_some in E. destruct E as [-> ->]. simpl in H1. destruct H1 as [Hx _].
+      assert (Hh : forall a, holds (COr (CBin (EVar x) OEq (EVal l)) (CBin (EVar x) OEq (EVal r))) a = (a x =? l) || (a x =? r)).
+      { intro a. unfold holds. cbn [eval_cons eval_expr obind cmp_sem]. destruct ((a x =? l) || (a x =? r)); reflexivity. }
       cbn [new_var fst snd].
       split; [unfold push, nvars; simpl; rewrite app_length; simpl; lia|unfold push; cbn [fst]; intro N; apply ne_app in N; tauto|].
       eexists. split; [unfold push; simpl; reflexivity|]. split.
@@ -797,19 +1187,20 @@ Proof.
       * intros a' Hi Hsat. unfold push in Hi; cbn [fst snd] in Hi. apply inst_app in Hi. destruct Hi as [Hi Hin].
         apply allsat_one in Hsat. cbn [psat vsem] in Hsat. apply Z.eqb_eq in Hsat. fold (nvars st) in Hin. rewrite <- Hsat in Hin.
         unfold dof_values in Hin. apply (proj1 (zsort_In _ _)) in Hin. simpl in Hin. split; [exact Hi|].
-        apply orb_true_iff. destruct Hin as [<-|[<-|[]]]; [left|right]; apply Z.eqb_refl.
-      * intros a Hi Hor _. exists (upd a (nvars st) (a x)).
+        rewrite Hh. apply orb_true_iff. destruct Hin as [<-|[<-|[]]]; [left|right]; apply Z.eqb_refl.
+      * intros a Hi Hor _. rewrite Hh in Hor. exists (upd a (nvars st) (a x)).
         assert (An : agree (nvars st) a (upd a (nvars st) (a x))) by (apply agree_upd; lia).
         split; [exact An|]. split.
         -- unfold push; cbn [fst snd]. apply inst_app. split; [eapply inst_agree; [exact An|exact Hi]|].
            fold (nvars st). rewrite upd_same. unfold dof_values. apply (proj2 (zsort_In _ _)).
            apply orb_true_iff in Hor. destruct Hor as [H|H]; apply Z.eqb_eq in H; rewrite H; simpl; auto.
         -- apply allsat_one. simpl. rewrite upd_same, (An x Hx). apply Z.eqb_refl.
-    + eapply step_weaken; [|eapply step_trans; [|apply IHc1; exact H1|apply IHc2]].
-      * intro a; rewrite andb_true_iff. reflexivity.
-      * intros a a' Ha. cbv beta. rewrite (impl_agree _ a a' c2 H2 Ha). auto.
-      * eapply cscoped_le; [|exact H2]. apply (st_n _ _ _ (IHc1 st H1)).
-  - cbn [materialize]. apply IHc; exact Hs.
+    + rewrite materialize_or_eq by exact E.
+      eapply step_weaken; [|apply vspec_fix; apply (reify_ok (COr c1 c2) st Hs)].
+      intro a. apply Rc_one.
+  - cbn [impl_cons]. rewrite materialize_not_eq.
+    eapply step_weaken; [|apply vspec_fix; apply (reify_ok c st Hs)].
+    intro a. apply Rc_zero_not.
   - cbn [materialize]. apply step_push; [apply lin_desc_scoped; exact Hs|].
     intro a. rewrite lin_desc_sat. simpl. reflexivity.
 Qed.
@@ -880,25 +1271,38 @@ Proof.
    match goal with |- sext _ (fst (post_expr ?e ?r ?s)) => apply (post_expr_sext e r s) end).
 Qed.
 
+Lemma close_sext : forall D st, sext (fst st) (fst (snd (close D st))).
+Proof. intros D st; unfold close, push; cbn [fst snd]. apply sext_app. Qed.
+Lemma reify_sext : forall c st, sext (fst st) (fst (snd (reify c st))).
+Proof.
+  induction c; intro st.
+  - rewrite reify_bin_eq. eapply sext_trans; [|apply close_sext]. eapply sext_trans; apply gev_sext.
+  - rewrite reify_and_eq. eapply sext_trans; [|apply close_sext]. eapply sext_trans; [apply IHc1|apply IHc2].
+  - rewrite reify_or_eq. eapply sext_trans; [|apply close_sext]. eapply sext_trans; [apply IHc1|apply IHc2].
+  - rewrite reify_not_eq. eapply sext_trans; [|apply close_sext]. apply IHc.
+  - rewrite reify_lin_eq. apply close_sext.
+Qed.
+
 Lemma materialize_sext : forall c st, sext (fst st) (fst (materialize c st)).
 Proof.
   induction c; intro st.
   - destruct (is_var l && is_val r) eqn:E1.
-    { destruct l; try discriminate; destruct r; try discriminate. cbn [materialize new_var push fst snd].
+    { destruct l; try discriminate; destruct r; try discriminate. cbn [materialize materialize_bin new_var push fst snd].
       destruct op; try apply sext_app.
       destruct (v <? nvars st)%nat; cbn [set_dom fst snd]; [|apply sext_app].
       eapply sext_trans; [apply sext_only|apply sext_app]. }
     destruct (is_val l && is_var r) eqn:E2.
-    { destruct l; try discriminate; destruct r; try discriminate. cbn [materialize new_var push fst snd].
+    { destruct l; try discriminate; destruct r; try discriminate. cbn [materialize materialize_bin new_var push fst snd].
       destruct op; try apply sext_app.
       destruct (v <? nvars st)%nat; cbn [set_dom fst snd]; [|apply sext_app].
       eapply sext_trans; [apply sext_only|apply sext_app]. }
     rewrite materialize_gen by assumption. unfold mat_gen, push; cbn [fst].
     eapply sext_trans; apply gev_sext.
   - cbn [materialize]. eapply sext_trans; [apply IHc1|apply IHc2].
-  - cbn [materialize]. destruct (or_eq_pattern c1 c2) as [[[x l] r]|]; [apply sext_app|].
-    eapply sext_trans; [apply IHc1|apply IHc2].
-  - cbn [materialize]. apply IHc.
+  - destruct (or_eq_pattern c1 c2) as [[[x l] r]|] eqn:E.
+    + cbn [materialize]. rewrite E. apply sext_app.
+    + rewrite materialize_or_eq by exact E. unfold push; cbn [fst]. apply reify_sext.
+  - rewrite materialize_not_eq. unfold push; cbn [fst]. apply reify_sext.
   - cbn [materialize]. apply sext_refl.
 Qed.
 
@@ -1402,21 +1806,33 @@ End Program.
 (* ============================================================================================ *)
 (* D. outside the known classes the lowered model denotes the arithmetic reading                 *)
 (* ============================================================================================ *)
-Lemma holds_true_iff : forall c a, holds c a = true <-> eval_cons c a = Some true.
-Proof. intros c a; unfold holds; destruct (eval_cons c a) as [[|]|]; split; congruence. Qed.
 Lemma holds_and : forall p q a, holds (CAnd p q) a = holds p a && holds q a.
 Proof. intros p q a; unfold holds; simpl. destruct (eval_cons p a) as [[|]|], (eval_cons q a) as [[|]|]; reflexivity. Qed.
 
-Lemma impl_holds : forall c a, kf_or_not c = false -> impl_cons c a = holds c a.
+(* what the (repaired) lowering enforces IS the arithmetic reading, for every tree *)
+Lemma impl_holds : forall c a, impl_cons c a = holds c a.
 Proof.
-  induction c; intros a Hk; simpl in Hk.
+  induction c; intros a.
   - unfold holds; cbn [impl_cons eval_cons].
     destruct (eval_expr l a), (eval_expr r a); cbn [obind]; try reflexivity.
     destruct (cmp_sem op z z0); reflexivity.
+  - rewrite holds_and. cbn [impl_cons]. rewrite IHc1, IHc2. reflexivity.
+  - reflexivity.
+  - reflexivity.
+  - unfold holds; simpl. destruct (cmp_sem op (lin_val cs xs a) k); reflexivity.
+Qed.
+
+(* the pre-repair lowering enforced the arithmetic reading only outside the class kf_or_not *)
+Lemma impl_prefix_holds : forall c a, kf_or_not c = false -> impl_cons_prefix c a = holds c a.
+Proof.
+  induction c; intros a Hk; simpl in Hk.
+  - unfold holds; cbn [impl_cons_prefix eval_cons].
+    destruct (eval_expr l a), (eval_expr r a); cbn [obind]; try reflexivity.
+    destruct (cmp_sem op z z0); reflexivity.
   - apply orb_false_iff in Hk. destruct Hk as [K1 K2].
-    rewrite holds_and. cbn [impl_cons].
+    rewrite holds_and. cbn [impl_cons_prefix].
     rewrite IHc1, IHc2 by assumption. reflexivity.
-  - cbn [impl_cons]. destruct (or_eq_pattern c1 c2) as [[[x l] r]|] eqn:E; [|discriminate].
+  - cbn [impl_cons_prefix]. destruct (or_eq_pattern c1 c2) as [[[x l] r]|] eqn:E; [|discriminate].
     apply or_eq_pattern_some in E. destruct E as [-> ->]. unfold holds; simpl.
     destruct ((a x =? l) || (a x =? r)); reflexivity.
   - discriminate.
@@ -1426,10 +1842,9 @@ Qed.
 Lemma kf_to_linear : forall c, kf_or_not (to_linear c) = kf_or_not c.
 Proof. intro c; destruct c; try reflexivity. simpl. destruct (linform l) as [[? ?]|]; [destruct (linform r) as [[? ?]|]|]; reflexivity. Qed.
 
-Lemma stored_holds : forall c a, kf_or_not (fold_cons c) = false ->
-  impl_cons (to_linear (fold_cons c)) a = holds c a.
+Lemma stored_holds : forall c a, impl_cons (to_linear (fold_cons c)) a = holds c a.
 Proof.
-  intros c a Hk. rewrite impl_holds; [|rewrite kf_to_linear; exact Hk].
+  intros c a. rewrite impl_holds.
   unfold holds. rewrite to_linear_correct, fold_cons_correct. reflexivity.
 Qed.
 
@@ -1454,22 +1869,20 @@ Section Denotes.
   Let n := length decls.
   Let s0 : store := map decl_dom decls.
   Hypothesis Hposts : Forall (post_wf n) posts.
-  (* no posted tree lies in a known-defect class of the lowering *)
-  Hypothesis Hclass : forall c, In (SNew c) posts -> kf_or_not (fold_cons c) = false.
 
   Lemma forms_hold : forall a,
     ((forall c, In c (post_forms posts) -> impl_cons c a = true) <->
      (forall st c, In st posts -> stmt_cons st = Some c -> eval_cons c a = Some true)).
   Proof.
-    intros a. clear Hdecls. revert Hposts Hclass. generalize posts as ps.
-    induction ps as [|st r IH]; intros Hw Hc; simpl.
+    intros a. clear Hdecls. revert Hposts. generalize posts as ps.
+    induction ps as [|st r IH]; intros Hw; simpl.
     - split; [intros _ st c []|intros _ c []].
     - inversion Hw; subst.
-      assert (IH' := IH H2 (fun c Hin => Hc c (or_intror Hin))).
+      assert (IH' := IH H2).
       assert (Key : exists f, post_form st = Some f /\ exists c, stmt_cons st = Some c /\ (impl_cons f a = true <-> eval_cons c a = Some true)).
       { destruct st; simpl in H1; try tauto.
         - exists (to_linear (fold_cons c)). split; [reflexivity|]. exists c. split; [reflexivity|].
-          rewrite stored_holds; [apply holds_true_iff|exact (Hc c (or_introl eq_refl))].
+          rewrite stored_holds. apply holds_true_iff.
         - exists (CLinInt cs xs op k). split; [reflexivity|]. exists (CLinInt cs xs op k). split; [reflexivity|].
           simpl. split; [intros ->; reflexivity|intro E; inversion E; reflexivity]. }
       destruct Key as [f [Ef [c [Ec Eq]]]]. rewrite Ef. split.
@@ -1481,9 +1894,11 @@ Section Denotes.
         * apply (proj2 IH' (fun st' c' Hin' => H st' c' (or_intror Hin')) c0 Hin).
   Qed.
 
-  (* C10, integer fragment: the lowered propagator set (with the final domains) has, projected on
+  (* C10, integer fragment, EVERY tree (and / or / not included: the class or_not is repaired): the
+     lowered propagator set (with the final domains) has, projected on
      the user's variables, exactly the assignments inside the declared domains at which every
-     posted tree evaluates to true -- for a lowered model that is in range (doms_nonempty: no
+     posted tree evaluates to true (the auxiliary variables of compound sub-expressions and the
+     hidden booleans of reified sub-trees are existentially quantified: a') -- for a lowered model that is in range (doms_nonempty: no
      auxiliary variable's computed range exceeded the size limit; implied by validate = None) *)
   Theorem lower_denotes : forall s ps, lower (build (decls ++ posts)) = LOk s ps ->
     doms_nonempty s = true ->
@@ -1502,8 +1917,6 @@ End Denotes.
 Theorem spellings_agree : forall decls posts1 posts2 s1 ps1 s2 ps2,
   forallb is_decl decls = true ->
   Forall (post_wf (length decls)) posts1 -> Forall (post_wf (length decls)) posts2 ->
-  (forall c, In (SNew c) posts1 -> kf_or_not (fold_cons c) = false) ->
-  (forall c, In (SNew c) posts2 -> kf_or_not (fold_cons c) = false) ->
   (forall a, (forall st c, In st posts1 -> stmt_cons st = Some c -> eval_cons c a = Some true) <->
              (forall st c, In st posts2 -> stmt_cons st = Some c -> eval_cons c a = Some true)) ->
   lower (build (decls ++ posts1)) = LOk s1 ps1 -> lower (build (decls ++ posts2)) = LOk s2 ps2 ->
@@ -1511,9 +1924,9 @@ Theorem spellings_agree : forall decls posts1 posts2 s1 ps1 s2 ps2,
   forall a, (exists a', agree (length decls) a a' /\ inst a' s1 /\ allsat ps1 a') <->
             (exists a', agree (length decls) a a' /\ inst a' s2 /\ allsat ps2 a').
 Proof.
-  intros decls posts1 posts2 s1 ps1 s2 ps2 Hd W1 W2 K1 K2 Heq L1 L2 N1 N2 a.
-  pose proof (lower_denotes decls posts1 Hd W1 K1 s1 ps1 L1 N1 a) as E1.
-  pose proof (lower_denotes decls posts2 Hd W2 K2 s2 ps2 L2 N2 a) as E2.
+  intros decls posts1 posts2 s1 ps1 s2 ps2 Hd W1 W2 Heq L1 L2 N1 N2 a.
+  pose proof (lower_denotes decls posts1 Hd W1 s1 ps1 L1 N1 a) as E1.
+  pose proof (lower_denotes decls posts2 Hd W2 s2 ps2 L2 N2 a) as E2.
   split; intro H.
   - apply E2. apply E1 in H. destruct H as [Hi H]. split; [exact Hi|]. apply Heq; exact H.
   - apply E1. apply E2 in H. destruct H as [Hi H]. split; [exact Hi|]. apply Heq; exact H.
@@ -1534,37 +1947,85 @@ Qed.
 Definition x0 := EVar 0.
 Definition x1 := EVar 1.
 
-Ltac refute_by_exact decls posts Hl :=
-  let H := fresh in let Hw := fresh in
-  intro H;
-  assert (Hw : Forall (post_wf (length decls)) posts) by (repeat constructor; simpl; repeat split; lia);
-  apply (lower_denotes_exact decls posts eq_refl Hw _ _ Hl) in H;
-  destruct H as [_ [H _]]; specialize (H _ (or_introl eq_refl)); vm_compute in H; discriminate H.
+Definition c_or_w : cons := COr (CBin x0 OLe (EVal 1)) (CBin x0 OGe (EVal 3)).
+Definition c_not_w : cons := CNot (CBin x0 OLe (EVal 1)).
+Definition c_anyof_w : cons := COr (COr (CBin x0 OLe (EVal 0)) (CBin x0 OEq (EVal 2))) (CBin x0 OGe (EVal 3)).
 
-(* D3: x in 0..3, x <= 1 \/ x >= 3: x = 0 satisfies the tree, the lowered model has no solution *)
-Lemma or_refuted : exists decls c a s ps,
-  kf_or_not (fold_cons c) = true /\ lower (build (decls ++ [SNew c])) = LOk s ps /\
-  inst a (map decl_dom decls) /\ eval_cons c a = Some true /\
-  ~ (exists a', agree (length decls) a a' /\ inst a' s /\ allsat ps a').
+Lemma inst_0_3 : forall k, 0 <= k <= 3 -> inst (fun _ => k) (map decl_dom [SInt 0 3]).
 Proof.
-  exists [SInt 0 3], (COr (CBin x0 OLe (EVal 1)) (CBin x0 OGe (EVal 3))), (fun _ => 0).
-  eexists; eexists. split; [reflexivity|]. split; [vm_compute; reflexivity|].
-  split; [intros v Hv; simpl in Hv; destruct v; [simpl; auto|lia]|]. split; [reflexivity|].
-  refute_by_exact [SInt 0 3] [SNew (COr (CBin x0 OLe (EVal 1)) (CBin x0 OGe (EVal 3)))]
-    (eq_refl : lower (build ([SInt 0 3] ++ [SNew (COr (CBin x0 OLe (EVal 1)) (CBin x0 OGe (EVal 3)))])) = LOk _ _).
+  intros k Hk v Hv; simpl in Hv. destruct v; [|lia].
+  change (In k (drange 0 3)). apply drange_In. lia.
 Qed.
 
-(* D3: x in 0..3, not (x <= 1): x = 3 satisfies the tree and is excluded, (and x = 0 is accepted) *)
-Lemma not_refuted : exists decls c a s ps,
-  kf_or_not (fold_cons c) = true /\ lower (build (decls ++ [SNew c])) = LOk s ps /\
+(* D3 BEFORE the repair (lower_prefix = the lowering with materialize_prefix): x in 0..3,
+   x <= 1 \/ x >= 3: x = 0 satisfies the tree, the lowered model (both sides posted) has no solution *)
+Lemma or_prefix_refuted : exists decls c a s ps,
+  kf_or_not (fold_cons c) = true /\ lower_prefix (build (decls ++ [SNew c])) = LOk s ps /\
   inst a (map decl_dom decls) /\ eval_cons c a = Some true /\
   ~ (exists a', agree (length decls) a a' /\ inst a' s /\ allsat ps a').
 Proof.
-  exists [SInt 0 3], (CNot (CBin x0 OLe (EVal 1))), (fun _ => 3).
+  exists [SInt 0 3], c_or_w, (fun _ => 0).
   eexists; eexists. split; [reflexivity|]. split; [vm_compute; reflexivity|].
-  split; [intros v Hv; simpl in Hv; destruct v; [simpl; auto|lia]|]. split; [reflexivity|].
-  refute_by_exact [SInt 0 3] [SNew (CNot (CBin x0 OLe (EVal 1)))]
-    (eq_refl : lower (build ([SInt 0 3] ++ [SNew (CNot (CBin x0 OLe (EVal 1)))])) = LOk _ _).
+  split; [apply inst_0_3; lia|]. split; [reflexivity|].
+  intros [a' [A [I S]]].
+  pose proof (I 1%nat ltac:(simpl; lia)) as I1. pose proof (I 2%nat ltac:(simpl; lia)) as I2.
+  pose proof (S _ (or_introl eq_refl)) as S1. pose proof (S _ (or_intror (or_introl eq_refl))) as S2.
+  cbn in I1, I2, S1, S2. destruct I1 as [I1|[]]. destruct I2 as [I2|[]].
+  apply Z.leb_le in S1. apply Z.leb_le in S2. lia.
+Qed.
+
+(* D3 before the repair: x in 0..3, not (x <= 1): x = 3 satisfies the tree and was excluded *)
+Lemma not_prefix_refuted : exists decls c a s ps,
+  kf_or_not (fold_cons c) = true /\ lower_prefix (build (decls ++ [SNew c])) = LOk s ps /\
+  inst a (map decl_dom decls) /\ eval_cons c a = Some true /\
+  ~ (exists a', agree (length decls) a a' /\ inst a' s /\ allsat ps a').
+Proof.
+  exists [SInt 0 3], c_not_w, (fun _ => 3).
+  eexists; eexists. split; [reflexivity|]. split; [vm_compute; reflexivity|].
+  split; [apply inst_0_3; lia|]. split; [reflexivity|].
+  intros [a' [A [I S]]].
+  pose proof (A 0%nat ltac:(simpl; lia)) as A0.
+  pose proof (I 1%nat ltac:(simpl; lia)) as I1.
+  pose proof (S _ (or_introl eq_refl)) as S1.
+  cbn in A0, I1, S1. destruct I1 as [I1|[]]. apply Z.leb_le in S1. lia.
+Qed.
+
+(* D3 REPAIRED: the same two trees, lowered through reification, have exactly the assignments at
+   which they evaluate to true: 0, 1, 3 (not 2) for the disjunction, 2, 3 (not 0, 1) for the negation *)
+Ltac has_ext decls c Hl :=
+  let Hw := fresh in
+  assert (Hw : Forall (post_wf (length decls)) [SNew c]) by (repeat constructor; simpl; repeat split; lia);
+  apply (proj2 (lower_denotes decls [SNew c] eq_refl Hw _ _ Hl eq_refl _));
+  split; [apply inst_0_3; lia|intros st c0 [<-|[]] E; inversion E; subst; reflexivity].
+Ltac no_ext decls c Hl :=
+  let Hw := fresh in let H := fresh in
+  intro H;
+  assert (Hw : Forall (post_wf (length decls)) [SNew c]) by (repeat constructor; simpl; repeat split; lia);
+  apply (proj1 (lower_denotes decls [SNew c] eq_refl Hw _ _ Hl eq_refl _)) in H;
+  destruct H as [_ H]; specialize (H _ _ (or_introl eq_refl) eq_refl); vm_compute in H; discriminate H.
+
+Lemma or_repaired : exists s ps,
+  lower (build ([SInt 0 3] ++ [SNew c_or_w])) = LOk s ps /\ doms_nonempty s = true /\ validate s ps = None /\
+  (forall k, In k [0; 1; 3] -> exists a', agree 1 (fun _ => k) a' /\ inst a' s /\ allsat ps a') /\
+  ~ (exists a', agree 1 (fun _ => 2) a' /\ inst a' s /\ allsat ps a').
+Proof.
+  eexists; eexists. split; [vm_compute; reflexivity|]. split; [vm_compute; reflexivity|]. split; [vm_compute; reflexivity|].
+  pose (Hl := eq_refl : lower (build ([SInt 0 3] ++ [SNew c_or_w])) = LOk _ _).
+  split.
+  - intros k [<-|[<-|[<-|[]]]]; has_ext [SInt 0 3] c_or_w Hl.
+  - no_ext [SInt 0 3] c_or_w Hl.
+Qed.
+
+Lemma not_repaired : exists s ps,
+  lower (build ([SInt 0 3] ++ [SNew c_not_w])) = LOk s ps /\ doms_nonempty s = true /\ validate s ps = None /\
+  (forall k, In k [2; 3] -> exists a', agree 1 (fun _ => k) a' /\ inst a' s /\ allsat ps a') /\
+  (forall k, In k [0; 1] -> ~ (exists a', agree 1 (fun _ => k) a' /\ inst a' s /\ allsat ps a')).
+Proof.
+  eexists; eexists. split; [vm_compute; reflexivity|]. split; [vm_compute; reflexivity|]. split; [vm_compute; reflexivity|].
+  pose (Hl := eq_refl : lower (build ([SInt 0 3] ++ [SNew c_not_w])) = LOk _ _).
+  split.
+  - intros k [<-|[<-|[]]]; has_ext [SInt 0 3] c_not_w Hl.
+  - intros k [<-|[<-|[]]]; no_ext [SInt 0 3] c_not_w Hl.
 Qed.
 
 (* D5 repaired: x = y = 50, x * y == 2500.  The product lives in an auxiliary variable whose domain
@@ -1679,26 +2140,42 @@ Proof. induction r as [|x r IH]; intros c a; simpl; [rewrite andb_true_r; reflex
 Theorem and_all_impl : forall cs c a, c_and_all cs = Some c -> impl_cons c a = forallb (fun x => impl_cons x a) cs.
 Proof. intros [|c0 r] c a H; [discriminate|]. inversion H; subst. simpl. apply fold_and_impl. Qed.
 
-(* or_all of three or more members (and of two outside `x == a || x == b`) is in the known class D3:
-   the chain's outer node has an Or as its left child, which is not the special pattern *)
+(* or_all of three or more members (and of two outside `x == a || x == b`) lay in the former class D3
+   (kf_or_not, the trees the pre-repair lowering got wrong): the chain's outer node has an Or as its
+   left child, which is not the special pattern *)
 Lemma fold_or_nested_kf : forall r a b c, kf_or_not (fold_left COr r (COr (COr a b) c)) = true.
 Proof. induction r as [|x r IH]; intros a b c; [reflexivity|]. simpl fold_left. apply IH. Qed.
 Theorem or_all_kf : forall c0 c1 c2 r c, c_or_all (c0 :: c1 :: c2 :: r) = Some c -> kf_or_not c = true.
 Proof. intros c0 c1 c2 r c H. inversion H; subst. simpl fold_left. apply fold_or_nested_kf. Qed.
 
-(* D3 through any_of: x in 0..3, any_of([x <= 0, x == 2, x >= 3]): x = 0 satisfies the tree, the lowered model
-   (all three members posted) has no solution *)
-Lemma any_of_refuted : exists decls cs c a s ps,
-  c_any_of cs = Some c /\ kf_or_not (fold_cons c) = true /\ lower (build (decls ++ [SNew c])) = LOk s ps /\
+(* D3 through any_of BEFORE the repair: x in 0..3, any_of([x <= 0, x == 2, x >= 3]): x = 0 satisfies the tree,
+   the pre-repair lowering (all three members posted) had no solution *)
+Lemma any_of_prefix_refuted : exists decls cs c a s ps,
+  c_any_of cs = Some c /\ kf_or_not (fold_cons c) = true /\ lower_prefix (build (decls ++ [SNew c])) = LOk s ps /\
   inst a (map decl_dom decls) /\ eval_cons c a = Some true /\
   ~ (exists a', agree (length decls) a a' /\ inst a' s /\ allsat ps a').
 Proof.
-  exists [SInt 0 3], [CBin x0 OLe (EVal 0); CBin x0 OEq (EVal 2); CBin x0 OGe (EVal 3)],
-    (COr (COr (CBin x0 OLe (EVal 0)) (CBin x0 OEq (EVal 2))) (CBin x0 OGe (EVal 3))), (fun _ => 0).
+  exists [SInt 0 3], [CBin x0 OLe (EVal 0); CBin x0 OEq (EVal 2); CBin x0 OGe (EVal 3)], c_anyof_w, (fun _ => 0).
   eexists; eexists. split; [reflexivity|]. split; [reflexivity|]. split; [vm_compute; reflexivity|].
-  split; [intros v Hv; simpl in Hv; destruct v; [simpl; auto|lia]|]. split; [reflexivity|].
-  refute_by_exact [SInt 0 3] [SNew (COr (COr (CBin x0 OLe (EVal 0)) (CBin x0 OEq (EVal 2))) (CBin x0 OGe (EVal 3)))]
-    (eq_refl : lower (build ([SInt 0 3] ++ [SNew (COr (COr (CBin x0 OLe (EVal 0)) (CBin x0 OEq (EVal 2))) (CBin x0 OGe (EVal 3)))])) = LOk _ _).
+  split; [apply inst_0_3; lia|]. split; [reflexivity|].
+  intros [a' [A [I S]]].
+  pose proof (A 0%nat ltac:(simpl; lia)) as A0.
+  pose proof (I 0%nat ltac:(simpl; lia)) as I0.
+  cbn in A0, I0. destruct I0 as [I0|[]]. lia.
+Qed.
+(* repaired: the chain is lowered through nested reification (bool_or of a bool_or); exactly 0, 2, 3 *)
+Lemma any_of_repaired : exists cs s ps,
+  c_any_of cs = Some c_anyof_w /\
+  lower (build ([SInt 0 3] ++ [SNew c_anyof_w])) = LOk s ps /\ doms_nonempty s = true /\ validate s ps = None /\
+  (forall k, In k [0; 2; 3] -> exists a', agree 1 (fun _ => k) a' /\ inst a' s /\ allsat ps a') /\
+  ~ (exists a', agree 1 (fun _ => 1) a' /\ inst a' s /\ allsat ps a').
+Proof.
+  exists [CBin x0 OLe (EVal 0); CBin x0 OEq (EVal 2); CBin x0 OGe (EVal 3)].
+  eexists; eexists. split; [reflexivity|]. split; [vm_compute; reflexivity|]. split; [vm_compute; reflexivity|]. split; [vm_compute; reflexivity|].
+  pose (Hl := eq_refl : lower (build ([SInt 0 3] ++ [SNew c_anyof_w])) = LOk _ _).
+  split.
+  - intros k [<-|[<-|[<-|[]]]]; has_ext [SInt 0 3] c_anyof_w Hl.
+  - no_ext [SInt 0 3] c_anyof_w Hl.
 Qed.
 (* all_of is faithful: x in 0..3, all_of([x >= 1, x <= 2, x != 1]) lowers to three propagators whose meaning is the conjunction *)
 Example all_of_example :
